@@ -185,13 +185,11 @@ def _replace_factors(factors: Dict[Dimension, List[Unit]]) -> RoughPlan:
                         break
 
         for dimension, unit, alternative in replacements:
-            overall_sign = 1
-            if not unit.dimension.is_factor(dimension):
-                if not (unit**-1).dimension.is_factor(dimension):
-                    raise ConversionNotFound(
-                        f"No way to replace {unit} among factors of {dimension}"
-                    )
-                overall_sign = -1
+            if unit.dimension is not dimension and unit.dimension**-1 is not dimension:
+                raise ConversionNotFound(
+                    f"No way to replace {unit} among factors of {dimension}"
+                )
+            overall_sign = _orientation(unit, dimension)
 
             ratio = _ratios[unit][alternative]
 
@@ -249,8 +247,7 @@ def _match_factors(
         )
         end_factor = _clean_pop(end_factors, end_dimension)
 
-        # TODO: this doesn't seem right in light of complex units with mixed exponents
-        exponent = -1 if any(e < 0 for e in end_dimension.exponents) else 1
+        exponent = _orientation(end_factor, end_dimension)
 
         plan.append((1, combined_start_factor, end_factor, exponent))
 
@@ -263,13 +260,13 @@ def _cancel_factors(
     plan: RoughPlan = []
 
     for dimension in list(factors):
-        exponent = -1 if any(e < 0 for e in dimension.exponents) else 1
         inverse = dimension**-1
         while dimension in factors and inverse in factors:
             end_factor = _clean_pop(factors, dimension)
             if dimension is inverse:
                 continue
             start_factor = _clean_pop(factors, inverse)
+            exponent = _orientation(end_factor, dimension)
 
             if invert:
                 plan.append((1, start_factor, end_factor, -exponent))
@@ -279,6 +276,13 @@ def _cancel_factors(
                 plan.append((1, start_factor, start_factor, -exponent))
 
     return plan
+
+
+def _orientation(factor: Unit, dimension: Dimension) -> int:
+    """Factors are filed under their own dimension when they are in a numerator, and
+    under its inverse when they are in a denominator; the signs of a dimension's
+    exponents say nothing about that (a frequency or a force has negative ones)"""
+    return 1 if factor.dimension is dimension else -1
 
 
 def _splat(unit: Unit) -> Dict[Dimension, List[Unit]]:
